@@ -351,6 +351,12 @@ func TestC18_Random(t *testing.T) {
 				if action != "" {
 					action = rapid.SampledFrom([]string{"do_get", "start_", "_start", "a__b", "a_b_c", "_"}).Draw(t, "oddAction")
 				}
+			case 5:
+				// a sub type of three segments: with no action the built name has four, which is a name
+				sub = sub + "_" + part.Draw(t, "sub2") + "_" + part.Draw(t, "sub3")
+				if rapid.Bool().Draw(t, "noAction") {
+					action = ""
+				}
 			}
 			// aim at the length boundary: built names of exactly 36, 35 and 34 characters
 			if target := rapid.SampledFrom([]int{36, 0, 35, 34, 0}).Draw(t, "targetLen"); target > 0 {
